@@ -254,6 +254,28 @@ Theorem c05_handler_commit_sites :
 Proof. reflexivity. Qed.
 Print Assumptions c05_handler_commit_sites.
 
+(** (10) Source tie for the block loop and for costInvalidGas. [run_block] empties the transaction
+    cache before EVERY transaction (a failed, uncharged transaction hands back a dirty cache: its
+    handler returns the error without committing or resetting anything), and [cost_invalid] moves
+    the fee through a FRESH CacheDB on the block overlay. The list of CacheDB / StateDB creations,
+    Resets and Commits in executeBlock, handleTransaction and the handlers is read from the source
+    on every run; it must be exactly this one — in particular `cache.Reset()` in executeBlock's loop
+    and `storage.NewCacheDB(overlay)` in costInvalidGas. *)
+Theorem c05_block_cache_sites :
+  cache_sites_block =
+  [("executeBlock", "NewCacheDB", "storage.NewCacheDB(this.stateStore.NewOverlayDB())");
+   ("executeBlock", "NewCacheDB", "storage.NewCacheDB(this.stateStore.NewOverlayDB())");
+   ("executeBlock", "NewCacheDB", "storage.NewCacheDB(overlay)");
+   ("executeBlock", "Reset", "cache.Reset()");
+   ("costInvalidGas", "NewCacheDB", "storage.NewCacheDB(overlay)");
+   ("costInvalidGas", "Commit", "cache.Commit()");
+   ("HandleInvokeTransaction", "Commit", "sc.CacheDB.Commit()");
+   ("HandleDeployTransaction", "Commit", "cache.Commit()");
+   ("HandleDeployTransaction", "Commit", "cache.Commit()");
+   ("HandleEIP155Transaction", "NewStateDB", "storage.NewStateDB(cache, tx.Hash(), common2.Hash(ctx.BlockHash), ong.OngBalanceHandle{})")]%string.
+Proof. reflexivity. Qed.
+Print Assumptions c05_block_cache_sites.
+
 (** * Concrete states *)
 
 Definition ex_payer : bytes := [1;2;3;4;5;6;7;8;9;10;11;12;13;14;15;16;17;18;19;20].
